@@ -159,7 +159,9 @@ J gen_forward(uint64_t seed, const J &ov)
 	// id pool: small pools force reuse, big ones keep ids distinct
 	int pool = (int)(r.chance(0.5) ? r.range(4, 40) : r.range(200, 60000));
 	std::vector<int> ids;
-	for (int i = 0; i < pool && i < 400; i++) ids.push_back((int)r.range(r.chance(0.05) ? 0 : 1, 65535));
+	for (int i = 0; i < pool && i < 400; i++) ids.push_back((int)r.range(1, 65535));
+	if (r.chance(0.35)) ids[r.range(0, (int)ids.size() - 1)] = 0;          // DNS id 0 is a legal id like any other
+	if (r.chance(0.2)) ids[r.range(0, (int)ids.size() - 1)] = 65535;
 	int nq = (int)(r.chance(0.3) ? r.range(1, 20) : r.range(20, 200));
 	static const int types[] = {1, 1, 28, 15, 16, 2, 5, 255, 33, 12, 6, 10};
 	double t = 0.5;
